@@ -526,3 +526,108 @@ def search_path_demo():
         return json.loads(line[-1]) if line else {'stderr': p.stderr[-500:]}
     finally:
         os.unlink(path)
+
+
+# ---------------------------------------------------------------------------
+# C11: functions on the token path keep the semantics their contracts assume (decorators)
+# ---------------------------------------------------------------------------
+KNOWN_DECORATORS = {'property', 'staticmethod', 'classmethod', 'overload', 'descriptorint',
+                    'descriptorstr', 'contextlib.contextmanager', 'cache', 'abstractmethod',
+                    'find_files'}
+MEMO = ('lru_cache', 'functools.lru_cache', 'functools.cache', 'cached_property',
+        'functools.cached_property')
+
+
+def decorator_audit(spec):
+    """Contracts are stated for the function BODY.  A decorator changes what a call does, so every
+    decorator on the token path must be one whose semantics the contracts account for; a
+    memoising decorator is unsound there because Token equality ignores position and source
+    (a cache hit returns tokens of an earlier, equal-looking clause)."""
+    t0 = time.time()
+    obls = []
+    for rel in ('tokenize.py', 'parser.py', 'tal.py', 'tales.py', 'i18n.py', 'zpt/program.py',
+                'compiler.py', 'utils.py', 'exc.py', 'astutil.py', 'codegen.py'):
+        tree = parse(rel)
+        bad, memo = [], []
+        for n in ast.walk(tree):
+            if isinstance(n, (ast.FunctionDef, ast.ClassDef)):
+                for d in n.decorator_list:
+                    name = ast.unparse(d.func if isinstance(d, ast.Call) else d)
+                    if name in MEMO or name.split('.')[-1] in ('lru_cache', 'cached_property'):
+                        memo.append('%s (line %d): @%s' % (n.name, n.lineno, ast.unparse(d)))
+                    elif name not in KNOWN_DECORATORS and name.split('.')[-1] not in KNOWN_DECORATORS:
+                        bad.append('%s (line %d): @%s' % (n.name, n.lineno, ast.unparse(d)))
+        o = ob('%s.decorators' % rel, not bad and not memo,
+               'functions of %s carry only decorators whose semantics the contracts account for; '
+               'none is memoised (Token equality ignores positions)' % rel,
+               {'memoised': memo, 'unknown_decorators': bad})
+        if memo:
+            demo = memo_demo(rel, [m.split(' ')[0] for m in memo])
+            o['search'] = demo
+            if demo.get('violates'):
+                o['confirmed'] = True
+                o['witness'] = {'inputs': demo.get('inputs'), 'detail': demo.get('detail')}
+        obls.append(o)
+    return {'unit': 'frames.decorator_audit', 'function': 'tal.py / parser.py / tokenize.py / ... (all functions)',
+            'obligations': obls, 'wall': time.time() - t0}
+
+
+MEMO_DEMO = r'''
+import json, sys, os, importlib
+sys.path.insert(0, os.path.join(sys.argv[1], 'src'))
+from chameleon.tokenize import Token
+rel, names = sys.argv[2], json.loads(sys.argv[3])
+mod = importlib.import_module('chameleon.' + rel[:-3].replace('/', '.'))
+out = {}
+
+def tokens_in(x):
+    if isinstance(x, Token):
+        yield x
+    elif isinstance(x, (list, tuple)):
+        for y in x:
+            yield from tokens_in(y)
+    elif isinstance(x, dict):
+        for y in x.values():
+            yield from tokens_in(y)
+
+for nm in names:
+    f = getattr(mod, nm, None)
+    if f is None:
+        continue
+    for text in ('a 1; b 2', 'k v', 'text x', 'a'):
+        s1, s2 = 'xx' + text, 'yyyyyyy' + text
+        t1, t2 = Token(text, 2, s1), Token(text, 7, s2)
+        try:
+            f(t1)
+            r2 = f(t2)
+        except Exception:
+            continue
+        wrong = [t for t in tokens_in(r2) if t.source is not s2]
+        if wrong:
+            out = {'violates': True, 'inputs': {'function': nm, 'first_call': repr((text, 2, s1)),
+                                                'second_call': repr((text, 7, s2))},
+                   'detail': 'the second call returned a token of the first call: %r at %d in %r'
+                             % (str(wrong[0]), wrong[0].pos, wrong[0].source)}
+            break
+    if out:
+        break
+print(json.dumps(out))
+'''
+
+
+def memo_demo(rel, names):
+    fd, path = tempfile.mkstemp(prefix='pyvc-demo-', suffix='.py')
+    try:
+        with os.fdopen(fd, 'w') as f:
+            f.write(MEMO_DEMO)
+        env = dict(os.environ)
+        env.pop('PYTHONPATH', None)
+        for k in list(env):
+            if k.upper().startswith('CHAMELEON_'):
+                del env[k]
+        p = subprocess.run([PY, path, REPO, rel, json.dumps(names)], capture_output=True, text=True,
+                           env=env, timeout=120)
+        line = [l for l in p.stdout.strip().split('\n') if l.startswith('{')]
+        return json.loads(line[-1]) if line else {'stderr': p.stderr[-500:]}
+    finally:
+        os.unlink(path)
